@@ -205,3 +205,59 @@ func DescInit() int {
 
 	return f()
 }
+
+// ---- asynchronous capture: a submitted job must not read a variable assigned again -----------------------
+
+type worker struct{}
+
+func (worker) NewJob(f func() error) error { go func() { _ = f() }(); return nil }
+
+func flush([]int) error { return nil }
+
+func AsyncGood(xs []int) {
+	var w worker
+
+	batch := []int{}
+
+	for i := range xs {
+		batch = append(batch, xs[i])
+
+		if len(batch) == 3 {
+			b := batch
+
+			_ = w.NewJob(func() error { return flush(b) })
+
+			batch = nil
+		}
+	}
+
+	_ = w.NewJob(func() error { return flush(batch) })
+}
+
+func AsyncBad(xs []int) {
+	var w worker
+
+	batch := []int{}
+
+	for i := range xs {
+		batch = append(batch, xs[i])
+
+		if len(batch) == 3 {
+			_ = w.NewJob(func() error { return flush(batch) })
+
+			batch = nil
+		}
+	}
+}
+
+func AsyncCallbackBad(xs []int, each func(func(int))) {
+	var w worker
+
+	batch := []int{}
+
+	each(func(x int) {
+		batch = append(batch, x)
+
+		_ = w.NewJob(func() error { return flush(batch) })
+	})
+}
